@@ -847,6 +847,15 @@ def rename_breadth(ctx, n):
         casing = rng.choice(CASINGS)
         where = rng.choice(["struct", "enum", "variant", "both"])
         name = "".join(words)
+        # identifiers written with underscores: the underscore is a word boundary under every convention
+        # (words consistently lower / UPPER / Capitalised, so no convention sees further boundaries)
+        sp = rng.random()
+        if len(words) >= 2 and sp < 0.3:
+            style = rng.choice(("lower", "upper", "cap"))
+            ws = [w.lower() if style == "lower" else w.upper() if style == "upper" else w[0].upper() + w[1:].lower() for w in words]
+            name = "_".join(ws)
+            if name in ("self", "Self", "super", "crate"):
+                continue
         if where == "struct":
             item = "#[display(rename_all = \"%s\")] struct %s;" % (casing, name)
         elif where == "enum":
